@@ -747,6 +747,7 @@ func runC09(c *Ctx) {
 	if set != nil {
 		c09SetDecision(c, set)
 	}
+	c09ListOps(c)
 }
 
 // c09Pairing: explicit forms of what the instance floors used to catch by
@@ -1551,4 +1552,110 @@ func c09SetDecision(c *Ctx, set *ssa.Function) {
 		return
 	}
 	c.check(bad == "", "C09.set-decision", set, what, nil, sprintf("%d outcomes walked. %s", n, bad))
+}
+
+// c09ListOps: the intrusive list primitives, evaluated symbolically (straight
+// line code, helper calls inlined, reads resolved against the writes made so
+// far), have exactly the effect of a circular doubly linked list with a
+// sentinel: the final heap of each helper equals the expected one.
+func c09ListOps(c *Ctx) {
+	c.L.Floor("C09.list-ops", 6)
+	type cellK struct{ obj, field string }
+	var eval func(f *ssa.Function, args []string, heap map[cellK]string, depth int) (string, string)
+	eval = func(f *ssa.Function, args []string, heap map[cellK]string, depth int) (ret string, why string) {
+		if len(f.Blocks) != 1 || depth > 3 {
+			return "", "not straight-line code"
+		}
+		val := map[ssa.Value]string{}
+		addr := map[ssa.Value]cellK{}
+		for i, p := range f.Params {
+			val[p] = args[i]
+		}
+		for _, in := range f.Blocks[0].Instrs {
+			switch x := in.(type) {
+			case *ssa.FieldAddr:
+				base, ok := val[x.X]
+				if !ok {
+					return "", "field of an unknown object"
+				}
+				addr[x] = cellK{base, core.FieldName(x)}
+			case *ssa.UnOp:
+				k, ok := addr[x.X]
+				if x.Op != token.MUL || !ok {
+					return "", "unsupported " + core.Describe(x)
+				}
+				if v, ok := heap[k]; ok {
+					val[x] = v
+				} else {
+					val[x] = k.obj + "." + k.field
+				}
+			case *ssa.Store:
+				k, ok := addr[x.Addr]
+				v, ok2 := val[x.Val]
+				if !ok || !ok2 {
+					return "", "unsupported store"
+				}
+				heap[k] = v
+			case *ssa.Call:
+				g := x.Call.StaticCallee()
+				if g == nil || !core.InModule(g) {
+					return "", "call of " + core.CalleeName(&x.Call)
+				}
+				var as []string
+				for _, a := range x.Call.Args {
+					v, ok := val[a]
+					if !ok {
+						return "", "unknown argument"
+					}
+					as = append(as, v)
+				}
+				r, w := eval(g, as, heap, depth+1)
+				if w != "" {
+					return "", w
+				}
+				val[x] = r
+			case *ssa.Return:
+				if len(x.Results) == 1 {
+					return val[x.Results[0]], ""
+				}
+				return "", ""
+			case *ssa.DebugRef:
+			default:
+				return "", "unsupported instruction " + in.String()
+			}
+		}
+		return "", ""
+	}
+	specs := []struct {
+		name string
+		heap map[cellK]string
+		ret  string
+	}{
+		{"listInit", map[cellK]string{{"p0", "next"}: "p0", {"p0", "prev"}: "p0"}, ""},
+		{"listFirst", map[cellK]string{}, "p0.next"},
+		{"listLast", map[cellK]string{}, "p0.prev"},
+		{"listLink2", map[cellK]string{{"p0", "next"}: "p1", {"p1", "prev"}: "p0"}, ""},
+		{"listUnlink", map[cellK]string{{"p0.prev", "next"}: "p0.next", {"p0.next", "prev"}: "p0.prev"}, ""},
+		{"listAppend", map[cellK]string{{"p0", "next"}: "p1.next", {"p1.next", "prev"}: "p0", {"p1", "next"}: "p0", {"p0", "prev"}: "p1"}, ""},
+	}
+	for _, sp := range specs {
+		f := c.fn("cache", sp.name)
+		if f == nil {
+			continue
+		}
+		args := []string{"p0", "p1"}[:len(f.Params)]
+		heap := map[cellK]string{}
+		ret, why := eval(f, args, heap, 0)
+		if why != "" {
+			c.undecided("C09.list-ops", f, sp.name+" has the list effect", nil, why)
+			continue
+		}
+		ok := ret == sp.ret && len(heap) == len(sp.heap)
+		for k, v := range sp.heap {
+			if heap[k] != v {
+				ok = false
+			}
+		}
+		c.check(ok, "C09.list-ops", f, sp.name+" has the list effect", nil, sprintf("final heap %v, result %q; expected %v, %q", heap, ret, sp.heap, sp.ret))
+	}
 }
